@@ -381,5 +381,7 @@ def resolve_name(path: Path, name: str, index: int | None = None, depth: int = 8
         if isinstance(v, ast.Name) and v.id != cur:
             cur = v.id
             continue
+        if v is None and cur != name:
+            return ast.Name(cur, ast.Load())  # ended at a parameter / global
         return v
     return None
